@@ -70,7 +70,13 @@ static void reb_simulation_add_local(struct reb_simulation* const r, struct reb_
             reb_simulation_error(r,"Cannot add particle outside of simulation box.");
             return;
         }
+		r->particles[r->N].c = NULL;
 		reb_tree_add_particle_to_tree(r, r->N);
+		if (r->particles[r->N].c == NULL){
+			// The tree refused the particle (same coordinates as an existing particle, error already reported).
+			// Do not add it: a particle without a leaf would leave dangling references behind.
+			return;
+		}
 	}
 	(r->N)++;
     if (r->integrator == REB_INTEGRATOR_MERCURIUS){
